@@ -25,11 +25,13 @@
    Deliberate abstractions (each named where it is made):
      A1 buffered WriteRecord calls during the handshake (c.out taken and released without blocking)
         are folded into the neighbouring stage action;
-     A2 the peer is honest: no malformed records, hence no sendAlert from the read path; the
-        c.in -> c.out nesting of the read path is represented by the KeyUpdate answer ("ku" records,
-        conn.go handleKeyUpdate) only;
-     A3 renegotiation (handleRenegotiation takes handshakeMutex while holding c.in) is outside the
-        model: handshakeStatus never returns to 0;
+     A2 the peer is honest: no malformed records, hence no sendAlert for bad records; the c.in -> c.out
+        nesting of the read path is represented by the KeyUpdate answer ("ku", handleKeyUpdate) and by
+        the no_renegotiation alert ("hr" with Reneg = FALSE);
+     A3 post-handshake messages (handlePostHandshakeMessage): NewSessionTicket "hs" and KeyUpdate without
+        request "kun" (c.in only), KeyUpdate(update_requested) "ku", HelloRequest "hr" -> handleRenegotiation
+        (handshakeMutex taken while c.in is held, then handshakeStatus := 0, then a handshake holding both;
+        RenegOK says whether the peer goes through with it - a zcrypto server never does);
      A4 retryCount / maxUselessRecords are not counted (the peer sends at most MaxPeer records);
      A5 the transport is reliable and ordered; "may block" = the enabling action is simply not taken
         (no fairness on the transport in the safety configuration).
@@ -39,7 +41,8 @@
      VERS  fields written by the handshake and constant afterwards (vers, cipherSuite, peerCertificates ...)
      HSK   handshakeErr, handshakes (written by handshake() after the handshake function returned)
      IN    c.in halfConn, rawInput, input, hand, retryCount
-     OUT   c.out halfConn, sendBuf, buffering, bytesSent, tmp, closeNotifySent, closeNotifyErr
+     OUT   c.out halfConn (cipher, seq, err), tmp, closeNotifySent, closeNotifyErr
+     OUTB  buffering, sendBuf, bytesSent
 
    Mut is a set of model-level mutations used to show that the invariants are not vacuous
    (design-level self test; empty in the real configurations).                                   *)
@@ -150,27 +153,32 @@ Guard(g) ==
     [] pc[g] = "cs_lock"    -> "cs_nolock" \in Mut \/ hsMu = 0
     [] OTHER                -> TRUE
 
-\* shared-memory accesses performed by the action available at a control point (field group, write?)
-Acc(l, call) ==
+\* shared-memory accesses performed by the action available at the control point of g (field group, write?)
+\* OUTB = c.buffering, c.sendBuf, c.bytesSent: read by every record write (c.write, under c.out) and
+\* written by the handshake WITHOUT c.out ("c.buffering = true", flush()).  The buffered WriteRecord calls
+\* folded into a stage (A1) take c.out themselves and are not part of the prediction.
+Acc(l, g) ==
   CASE l = "hs_lock"    -> {<<"HSK", FALSE>>}
-    [] l = "hs_wl_lock" -> {<<"OUT", TRUE>>, <<"VERS", TRUE>>}
-    [] l = "hs_wl_w"    -> {<<"OUT", TRUE>>, <<"VERS", TRUE>>}
-    [] l = "hs_wf"      -> {<<"OUT", TRUE>>, <<"VERS", TRUE>>}                  \* A1
-    [] l = "hs_r"       -> {<<"IN", TRUE>>, <<"OUT", TRUE>>, <<"VERS", TRUE>>}  \* A1
+    [] l = "hs_wl_lock" -> {<<"OUT", TRUE>>, <<"OUTB", TRUE>>, <<"VERS", TRUE>>}
+    [] l = "hs_wl_w"    -> {<<"OUT", TRUE>>, <<"OUTB", TRUE>>, <<"VERS", TRUE>>}
+    [] l = "hs_wf"      -> {<<"OUTB", TRUE>>, <<"VERS", TRUE>>}
+    \* a renegotiation that the peer refuses never gets as far as writing c.vers / c.buffering
+    [] l = "hs_r"       -> IF rn = g /\ ~RenegOK THEN {<<"IN", TRUE>>}
+                           ELSE {<<"IN", TRUE>>, <<"OUTB", TRUE>>, <<"VERS", TRUE>>}
     [] l = "hs_unl_in"  -> {<<"HSK", TRUE>>}
+    [] l = "rn_unl"     -> {<<"HSK", TRUE>>}
     [] l = "rd_lock"    -> {<<"IN", TRUE>>, <<"VERS", FALSE>>}
     [] l = "rd_net"     -> {<<"IN", TRUE>>, <<"VERS", FALSE>>}
-    [] l = "rd_ku_lock" -> {<<"IN", TRUE>>, <<"OUT", TRUE>>, <<"VERS", FALSE>>}
-    [] l = "rd_ku_w"    -> {<<"OUT", TRUE>>}
-    [] l = "rd_al_lock" -> {<<"IN", TRUE>>, <<"OUT", TRUE>>, <<"VERS", FALSE>>}
-    [] l = "rd_al_w"    -> {<<"OUT", TRUE>>}
-    [] l = "rn_unl"     -> {<<"HSK", TRUE>>}
+    [] l = "rd_ku_lock" -> {<<"IN", TRUE>>, <<"OUT", TRUE>>, <<"OUTB", TRUE>>, <<"VERS", FALSE>>}
+    [] l = "rd_ku_w"    -> {<<"OUT", TRUE>>, <<"OUTB", TRUE>>}
+    [] l = "rd_al_lock" -> {<<"IN", TRUE>>, <<"OUT", TRUE>>, <<"OUTB", TRUE>>, <<"VERS", FALSE>>}
+    [] l = "rd_al_w"    -> {<<"OUT", TRUE>>, <<"OUTB", TRUE>>}
     [] l = "wr_cas"     -> IF "wr_vers_early" \in Mut THEN {<<"VERS", FALSE>>} ELSE {}
-    \* Write reads c.vers only after it saw handshakeComplete() under c.out
-    [] l = "wr_outlock" -> IF status = 1 THEN {<<"OUT", TRUE>>, <<"VERS", FALSE>>} ELSE {<<"OUT", FALSE>>}
-    [] l = "wr_net"     -> {<<"OUT", TRUE>>, <<"VERS", FALSE>>}
-    [] l = "cn_lock"    -> {<<"OUT", TRUE>>, <<"VERS", FALSE>>}
-    [] l = "cn_net"     -> {<<"OUT", TRUE>>}
+    \* Write reads c.vers and seals a record only after it saw handshakeComplete() under c.out
+    [] l = "wr_outlock" -> IF status = 1 THEN {<<"OUT", TRUE>>, <<"OUTB", TRUE>>, <<"VERS", FALSE>>} ELSE {<<"OUT", FALSE>>}
+    [] l = "wr_net"     -> {<<"OUT", TRUE>>, <<"OUTB", TRUE>>, <<"VERS", FALSE>>}
+    [] l = "cn_lock"    -> {<<"OUT", TRUE>>, <<"OUTB", TRUE>>, <<"VERS", FALSE>>}
+    [] l = "cn_net"     -> {<<"OUT", TRUE>>, <<"OUTB", TRUE>>}
     [] l = "cs_read"    -> {<<"VERS", FALSE>>}
     [] OTHER            -> {}
 
@@ -664,7 +672,7 @@ LockOrder == \A g \in G :
 \* predicted data-race freedom: no two goroutines have conflicting actions enabled together
 NoRace == \A g, h \in G :
   (g # h /\ Guard(g) /\ Guard(h) /\ LocksAt(pc[g]) \cap LocksAt(pc[h]) = {})
-     => ~Conflict(Acc(pc[g], Cur(g)), Acc(pc[h], Cur(h)))
+     => ~Conflict(Acc(pc[g], g), Acc(pc[h], h))
 
 \* fields are constant after the handshake: nobody is inside the handshake once status = 1
 \* except for the deferred unlocks
